@@ -38,7 +38,8 @@ Inductive cpayload :=
 | CPEtagColl
 | CPItem (o : obj)
 | CPExport (t : tag) (l : list obj)
-| CPListing (l : list centry).
+| CPListing (l : list centry)
+| CPBusy (n : N).                      (* number of busy periods of a free-busy answer *)
 
 Definition canon_payload (p : payload) : cpayload :=
   match p with
@@ -49,6 +50,7 @@ Definition canon_payload (p : payload) : cpayload :=
   | PExport t l => CPExport t (isort (fun a b => N.leb (o_uid a) (o_uid b))
                                  (map (fun o => mkObj (o_uid o) (o_comp o) (N.modulo (o_cid o) 10)) l))
   | PListing l => CPListing (isort (fun a b => path_leb (centry_path a) (centry_path b)) (map canon_entry l))
+  | PBusy l => CPBusy (N.of_nat (length l))
   end.
 
 Definition cresp := (status * cpayload)%type.
@@ -83,6 +85,7 @@ Definition cpayload_eqb (a b : cpayload) : bool :=
   | CPEtagItem o, CPEtagItem o' | CPItem o, CPItem o' => obj_eqb o o'
   | CPExport t l, CPExport t' l' => tag_eqb t t' && list_eqb obj_eqb l l'
   | CPListing l, CPListing l' => list_eqb centry_eqb l l'
+  | CPBusy n, CPBusy n' => N.eqb n n'
   | _, _ => false
   end.
 Definition cresp_eqb (a b : cresp) : bool := status_eqb (fst a) (fst b) && cpayload_eqb (snd a) (snd b).
